@@ -292,6 +292,111 @@ def handle(line: str) -> str:
             return "OK " + "|".join(outs)
         except Exception as e:  # noqa
             return "BAD-REQUEST " + repr(e)
+    if cmd == "HELPERS":
+        try:
+            from metasequoia_sql import SQLParser, SQLType
+            from metasequoia_sql.common.static import HASHMAP_MYSQL_TO_HIVE
+            from metasequoia_sql.core import node as cnode
+            import pydump
+            text = "".join(chr(int(w)) for w in words[2:])
+            try:
+                c = SQLParser.parse_create_table_statement(text, sql_type=SQLType.MYSQL)
+                ops = []
+                for w in ([] if words[1] == "-" else words[1].split(",")):
+                    parts = w.split(":")
+                    if parts[0] in ("ct0", "ct1"):
+                        ops.append(("ct", parts[0] == "ct1"))
+                    elif parts[0] == "stn":
+                        ops.append(("stn", cnode.ASTTableNameExpression(schema_name=None if parts[1] == "-" else word_str(parts[1]), table_name=word_str(parts[2]))))
+                    elif parts[0] in ("ac", "apc"):
+                        ops.append((parts[0], SQLParser.parse_define_column_expression(word_str(parts[1]), sql_type=SQLType.MYSQL)))
+                    else:
+                        return "BAD-REQUEST op"
+            except RecursionError:
+                return "PARSEERR Recursion"
+            except Exception as e:  # noqa
+                return "PARSEERR " + err_name(e)
+            try:
+                for k, a in ops:
+                    before = pydump.dump(c)
+                    if k == "ct":
+                        c2 = c.change_type(HASHMAP_MYSQL_TO_HIVE, remove_param=a)
+                    elif k == "stn":
+                        c2 = c.set_table_name(a)
+                    elif k == "ac":
+                        c2 = c.append_column(a)
+                    else:
+                        c2 = c.append_partition_by_column(a)
+                    if pydump.dump(c) != before:
+                        return "OK !receiver-mutated-by-" + k
+                    if type(c2) is not type(c):
+                        return "OK !class-changed-by-" + k
+                    c = c2
+            except Exception as e:  # noqa
+                return "HELPERR " + err_name(e)
+            outs = []
+            for d in (SQLType.MYSQL, SQLType.HIVE):
+                try:
+                    s = c.source(d)
+                    outs.append(cps(s) if s else "-")
+                except Exception as e:  # noqa
+                    outs.append("ERR:" + err_name(e))
+            try:
+                hash(c)
+                h = "hashable"
+            except TypeError:
+                h = "unhashable"
+            return "OK " + pydump.dump(c) + " | " + " | ".join(outs) + " | " + h
+        except Exception as e:  # noqa
+            return "BAD-REQUEST " + repr(e)
+    if cmd == "PROJ18":
+        # C18 oracle support: schema projections of a MySQL CREATE TABLE before / after helper edits and after the Hive round trip
+        try:
+            import json as _json
+            from metasequoia_sql import SQLParser, SQLType
+            from metasequoia_sql.common.static import HASHMAP_MYSQL_TO_HIVE
+            from metasequoia_sql.core import node as cnode
+
+            def proj(c):
+                def col(x):
+                    return [x.column_name, x.column_type.name, None if x.column_type.params is None else [p.source(SQLType.MYSQL) for p in x.column_type.params], x.comment]
+                return {"schema": c.table_name.schema_name, "table": c.table_name.table_name, "columns": [col(x) for x in c.columns],
+                        "partitioned_by": [col(x) for x in c.partitioned_by], "comment": c.comment}
+            text = "".join(chr(int(w)) for w in words[2:])
+            try:
+                c = SQLParser.parse_create_table_statement(text, sql_type=SQLType.MYSQL)
+            except Exception as e:  # noqa
+                return "PARSEERR " + err_name(e)
+            out = {"orig": proj(c)}
+            try:
+                for w in ([] if words[1] == "-" else words[1].split(",")):
+                    parts = w.split(":")
+                    if parts[0] in ("ct0", "ct1"):
+                        c = c.change_type(HASHMAP_MYSQL_TO_HIVE, remove_param=parts[0] == "ct1")
+                    elif parts[0] == "stn":
+                        c = c.set_table_name(cnode.ASTTableNameExpression(schema_name=None if parts[1] == "-" else word_str(parts[1]), table_name=word_str(parts[2])))
+                    elif parts[0] == "ac":
+                        c = c.append_column(SQLParser.parse_define_column_expression(word_str(parts[1]), sql_type=SQLType.MYSQL))
+                    else:
+                        c = c.append_partition_by_column(SQLParser.parse_define_column_expression(word_str(parts[1]), sql_type=SQLType.MYSQL))
+            except Exception as e:  # noqa
+                return "HELPERR " + err_name(e)
+            out["edited"] = proj(c)
+            for d in (SQLType.HIVE, SQLType.MYSQL):
+                try:
+                    t = c.source(d)
+                    out[d.name + "_text"] = t
+                    try:
+                        out[d.name + "_reparsed"] = proj(SQLParser.parse_create_table_statement(t, sql_type=d))
+                        rest = SQLParser.parse_statements(t, sql_type=d)
+                        out[d.name + "_statements"] = len(rest)
+                    except Exception as e:  # noqa
+                        out[d.name + "_reparsed"] = "ERR " + err_name(e)
+                except Exception as e:  # noqa
+                    out[d.name + "_text"] = "ERR " + err_name(e)
+            return "OK " + _json.dumps(out, ensure_ascii=True, sort_keys=True)
+        except Exception as e:  # noqa
+            return "BAD-REQUEST " + repr(e)
     if cmd == "CURSOR":
         try:
             return run_cursor(words[1:])
